@@ -673,6 +673,21 @@ func (c *Ctx) applyTableOverrides(from int) {
 			if j := strings.LastIndex(rest, ":"); j >= 0 {
 				table = c.tableCovered["R9f:"+rest[:j]]
 			}
+		case strings.HasPrefix(o.Key, "R12:P"):
+			// R12:P<n>:<op>:<clause> and R12:P<n>:floor:<op>
+			parts := strings.Split(o.Key, ":")
+			for _, nm := range []string{"RNN", "GRU", "LSTM"} {
+				for _, pt := range parts[2:] {
+					if pt == nm {
+						table = c.tableCovered["table:recurrent:"+nm]
+					}
+				}
+			}
+		case strings.HasPrefix(o.Key, "R7:softmax-kernel:"):
+			// the axis tables of Softmax and LogSoftmax watch for exactly this call (kind softmax-kernel)
+			if a, b := c.tableCovered["R9f:Softmax.axis"], c.tableCovered["R9f:LogSoftmax.axis"]; a != "" && b != "" {
+				table = a + " and " + b
+			}
 		case o.Key == "R5:M10":
 			table = c.tableCovered["table:opset"]
 		case strings.HasPrefix(o.Key, "R6:T6:"), strings.HasPrefix(o.Key, "R6:T7:"):
